@@ -235,6 +235,9 @@ def builder(ctx, prog):
             if msg:
                 ctx.violation("BUILDER", "clone", "ArrayBuilder::clone: %s" % msg, bdy.file())
             ctx.instance("BUILDER", "clone")
+    from .. import accessors
+    accessors.field(ctx, "BUILDER", prog, AB + "len", 1, what="the `inited` counter")
+    accessors.rebuild(ctx, "BUILDER", prog, AB + "copy", nfields=2)
     b = ctx.anchor(prog, AB + "new")
     if b is not None:
         ps = sym.paths_of(b, prog)
